@@ -56,6 +56,11 @@ pub struct Lifetime {
     /// refers to the new content
     #[serde(default)]
     pub rewrite: Option<(u8, u16)>,
+    /// during this lifetime the platform refuses writable+executable protections (a W^X policy):
+    /// an implementation may then refuse to install (panic) or find another way; whatever it
+    /// writes is still subject to every property
+    #[serde(default)]
+    pub deny_wx: bool,
 }
 
 #[derive(Serialize, Deserialize, Clone, Debug, Hash, PartialEq, Eq)]
@@ -350,6 +355,7 @@ pub fn execute(c: &HistCase, opts: &Opts) -> HistObs {
             ip::log_clear();
             let runs0 = targets::ORIG_RUNS.load(SeqCst);
             crate::worker::phase("new");
+            ip::DENY_WX.store(life.deny_wx as u8, SeqCst);
             let mut inj = ip::sut(InjectorPP::new);
             // creating an injector maps and unmaps nothing
             let evs_new = ip::log_snapshot();
@@ -486,6 +492,7 @@ pub fn execute(c: &HistCase, opts: &Opts) -> HistObs {
             if detailed && opts.logs {
                 lo.drop_log = log_events(&evs);
             }
+            ip::DENY_WX.store(0, SeqCst);
             crate::worker::phase("post");
             for (i, t) in tg.iter().enumerate() {
                 let now = crate::mem::read_direct(t.addr, 32);
@@ -536,6 +543,12 @@ pub fn strategy(max_lifetimes: usize, max_steps: usize, synth_bias_last_slot: bo
 }
 
 pub fn strategy_rw(max_lifetimes: usize, max_steps: usize, synth_bias_last_slot: bool, rewrites: bool) -> impl Strategy<Value = HistCase> {
+    strategy_full(max_lifetimes, max_steps, synth_bias_last_slot, rewrites, 0.0)
+}
+
+/// `deny_wx`: probability that a lifetime runs under a W^X policy (only for judges that look at
+/// what *was* written, not at whether an installation succeeded or what a refused one left mapped)
+pub fn strategy_full(max_lifetimes: usize, max_steps: usize, synth_bias_last_slot: bool, rewrites: bool, deny_wx: f64) -> impl Strategy<Value = HistCase> {
     let off = if synth_bias_last_slot {
         prop_oneof![2 => 0u16..0x1000, 3 => Just(0xFF0u16), 1 => Just(0u16)].boxed()
     } else {
@@ -571,7 +584,7 @@ pub fn strategy_rw(max_lifetimes: usize, max_steps: usize, synth_bias_last_slot:
         4 => prop::collection::vec(step.clone(), 0..=max_steps).boxed(),
         1 => (prop::collection::vec(step.clone(), 0..=max_steps / 2), refake, prop::collection::vec(step, 0..=max_steps / 3)).prop_map(|(mut a, b, c)| { a.extend(b); a.extend(c); a }).boxed(),
     ];
-    let life = (steps, prop_oneof![3 => Just(Exit::Normal), 1 => Just(Exit::Unwind)], rw).prop_map(|(steps, exit, rewrite)| Lifetime { steps, exit, rewrite });
+    let life = (steps, prop_oneof![3 => Just(Exit::Normal), 1 => Just(Exit::Unwind)], rw, prop::bool::weighted(deny_wx)).prop_map(|(steps, exit, rewrite, deny_wx)| Lifetime { steps, exit, rewrite, deny_wx });
     (synth, prop::collection::vec(life, 1..=max_lifetimes), any::<u8>()).prop_map(|(synth, lifetimes, focus)| {
         // concentrate the history on a few targets: indices are folded onto a window of 4
         let lifetimes = lifetimes
@@ -587,6 +600,7 @@ pub fn strategy_rw(max_lifetimes: usize, max_steps: usize, synth_bias_last_slot:
                     .collect(),
                 exit: l.exit,
                 rewrite: l.rewrite,
+                deny_wx: l.deny_wx,
             })
             .collect();
         HistCase { synth, lifetimes, repeat: 1 }
